@@ -50,11 +50,12 @@ type Conf struct {
 }
 
 type State struct {
-	Started bool `json:"started"`
-	Proxy   bool `json:"proxy"`
-	Conf    Conf `json:"conf"`
-	Due     bool `json:"due"`
-	Wanted  bool `json:"wanted"`
+	Started bool   `json:"started"`
+	Proxy   bool   `json:"proxy"`
+	Kind    string `json:"kind"`
+	Conf    Conf   `json:"conf"`
+	Due     bool   `json:"due"`
+	Wanted  bool   `json:"wanted"`
 }
 
 type Label struct {
@@ -99,6 +100,7 @@ type Event struct {
 	Obs     []string `json:"obs"`
 	Conf    Conf     `json:"conf"` // read back from the torrent (GetConf)
 	Proxy   bool     `json:"proxy"`
+	Kind    string   `json:"kind"`
 	Started bool     `json:"started"`
 }
 
@@ -198,6 +200,46 @@ func (h handler) ServeHTTP(rw http.ResponseWriter, r *http.Request) {
 		rw.Write(content.Range(w.seed, o, int(e-o+1)))
 	default:
 		http.NotFound(rw, r)
+	}
+}
+
+// ---- the UDP tracker (BEP 15): connect, then announce
+
+func (w *world) udpTracker(pc net.PacketConn) {
+	buf := make([]byte, 2048)
+	for {
+		n, addr, err := pc.ReadFrom(buf)
+		if err != nil {
+			return
+		}
+		if w.proxy {
+			w.note("a proxied torrent sent a datagram to the UDP tracker directly")
+		}
+		m := buf[:n]
+		if n >= 16 && binary.BigEndian.Uint64(m) == 0x41727101980 && binary.BigEndian.Uint32(m[8:]) == 0 {
+			r := make([]byte, 16)
+			binary.BigEndian.PutUint32(r, 0)
+			copy(r[4:8], m[12:16])
+			binary.BigEndian.PutUint64(r[8:], 0x1122334455667788)
+			pc.WriteTo(r, addr)
+			continue
+		}
+		if n >= 98 && binary.BigEndian.Uint32(m[8:]) == 1 {
+			port := binary.BigEndian.Uint16(m[96:98])
+			if port != 0 {
+				w.add("tracker:port")
+			} else {
+				w.add("tracker:noport")
+			}
+			if binary.BigEndian.Uint32(m[84:88]) != 0 {
+				w.add("peer:ipv6") // an address disclosed in the ip field
+			}
+			r := make([]byte, 20)
+			binary.BigEndian.PutUint32(r, 1)
+			copy(r[4:8], m[12:16])
+			binary.BigEndian.PutUint32(r[8:], 1800)
+			pc.WriteTo(r, addr)
+		}
 	}
 }
 
@@ -457,8 +499,19 @@ func runCase(c *Case, out *Out) {
 	}()
 
 	base := "http://" + w.lnA.Addr().String()
+	trk := base + "/announce"
+	if c.Init.Kind == "udp" {
+		pc, err := net.ListenPacket("udp4", "127.0.0.1:0")
+		if err != nil {
+			out.Note = err.Error()
+			return
+		}
+		defer pc.Close()
+		go w.udpTracker(pc)
+		trk = "udp://" + pc.LocalAddr().String() + "/announce"
+	}
 	spec := mktor.Spec{Name: w.name, PieceLen: 2 * CS, Length: w.total, Seed: w.seed,
-		Trackers: []string{base + "/announce"}, Webseeds: []string{base + "/seed/"}}
+		Trackers: []string{trk}, Webseeds: []string{base + "/seed/"}}
 	proxyURL := ""
 	if c.Init.Proxy {
 		proxyURL = "socks5://" + w.lnS.Addr().String()
@@ -527,7 +580,7 @@ func runCase(c *Case, out *Out) {
 		return true
 	}
 
-	out.Events = append(out.Events, Event{L: Label{A: "reset", C: &Conf{}}, Obs: []string{}, Conf: c.Init.Conf, Proxy: c.Init.Proxy})
+	out.Events = append(out.Events, Event{L: Label{A: "reset", C: &Conf{}}, Obs: []string{}, Conf: c.Init.Conf, Proxy: c.Init.Proxy, Kind: c.Init.Kind})
 	for k, st := range c.Steps {
 		desc := fmt.Sprintf("step %d %s", k, st.A.L.A)
 		post := st.S
@@ -726,7 +779,7 @@ func runCase(c *Case, out *Out) {
 			lab.C = &Conf{}
 		}
 		out.Events = append(out.Events, Event{L: lab, Obs: tobs, Conf: Conf{Trk: rc.UseTrackers, Ws: rc.UseWebseeds, Dht: rc.DhtMode.String()},
-			Proxy: c.Init.Proxy, Started: true})
+			Proxy: c.Init.Proxy, Kind: c.Init.Kind, Started: true})
 		for o := range expect {
 			if !gs[o] {
 				out.Nonconf = append(out.Nonconf, fmt.Sprintf("%s: the model expects %s, not observed (observed %v)", desc, o, obs))
